@@ -209,8 +209,6 @@ func runRKG(c RKGCase, rec *h.Rec) error {
 	switch {
 	case c.Key.LevelP == -1 && c.Key.W == 0 && c.CtLevel > 0:
 		functional = "skipped:noP-w0"
-	case coverageShort(c.Params, c.Key, digits, c.CtLevel):
-		functional = "skipped:digit-coverage-short"
 	case !discriminating(bound, Q):
 		functional = "not-discriminating"
 	}
